@@ -81,9 +81,12 @@ func Drain(sr *schema.StreamReader[M]) ([]M, error) {
 
 // nativeLambda builds a lambda that natively implements exactly the paradigms in `native`
 // for the deterministic function f, splitting streamed output by `pat`.
-func nativeLambda(f func(ctx context.Context, in M) (M, error), native string, pat []int) *compose.Lambda {
+func nativeLambda(f func(ctx context.Context, in M) (M, error), native string, pat []int, produce func([]M) *schema.StreamReader[M]) *compose.Lambda {
 	if native == "" || native == "i" {
 		return compose.InvokableLambda(f)
+	}
+	if produce == nil {
+		produce = func(cs []M) *schema.StreamReader[M] { return schema.StreamReaderFromArray(cs) }
 	}
 	var fi compose.Invoke[M, M, lambdaOpt]
 	var fs compose.Stream[M, M, lambdaOpt]
@@ -105,7 +108,7 @@ func nativeLambda(f func(ctx context.Context, in M) (M, error), native string, p
 			if err != nil {
 				return nil, err
 			}
-			return schema.StreamReaderFromArray(ChunkMap(pat, o)), nil
+			return produce(ChunkMap(pat, o)), nil
 		}
 	}
 	if strings.Contains(native, "c") {
@@ -127,7 +130,7 @@ func nativeLambda(f func(ctx context.Context, in M) (M, error), native string, p
 			if err != nil {
 				return nil, err
 			}
-			return schema.StreamReaderFromArray(ChunkMap(pat, o)), nil
+			return produce(ChunkMap(pat, o)), nil
 		}
 	}
 	l, err := compose.AnyLambda(fi, fs, fc, ft)
